@@ -1382,27 +1382,40 @@ func replayShard(b64 string) {
 	if rc.Query != nil {
 		q := *rc.Query
 		fmt.Fprintf(&sb, "query %+v: ", q)
-		show := func(name string, sh *shard.Shard) {
+		render := func(sh *shard.Shard) string {
 			h, e := c04lib.Search(sh, q.toQuery())
 			if e != nil {
-				fmt.Fprintf(&sb, "%s: error %v; ", name, e)
-				return
+				return fmt.Sprintf("error %v", e)
 			}
 			switch q.Kind {
 			case "int", "float", "string", "array", "id":
-				fmt.Fprintf(&sb, "%s: %s; ", name, setCanon(h))
-			default:
-				p := make([]string, len(h))
-				for i, x := range h {
-					v := float32(0)
-					if x.Dist != nil {
-						v = *x.Dist
-					} else if x.Score != nil {
-						v = *x.Score
-					}
-					p[i] = fmt.Sprintf("%s@%v", x.Id.String()[:8], v)
+				return setCanon(h)
+			}
+			if q.Kind == "flat" {
+				// a flat scan visits the points in Go map order: ties are printed in id order
+				sort.SliceStable(h, func(i, j int) bool {
+					return h[i].Dist != nil && h[j].Dist != nil && *h[i].Dist == *h[j].Dist && h[i].Id.String() < h[j].Id.String()
+				})
+			}
+			p := make([]string, len(h))
+			for i, x := range h {
+				v := float32(0)
+				if x.Dist != nil {
+					v = *x.Dist
+				} else if x.Score != nil {
+					v = *x.Score
 				}
-				fmt.Fprintf(&sb, "%s: [%s]; ", name, strings.Join(p, " "))
+				p[i] = fmt.Sprintf("%s@%v", x.Id.String()[:8], v)
+			}
+			return "[" + strings.Join(p, " ") + "]"
+		}
+		// every shard is asked twice: the second answer is served from what the first one cached
+		show := func(name string, sh *shard.Shard) {
+			a, b := render(sh), render(sh)
+			if a == b {
+				fmt.Fprintf(&sb, "%s: %s; ", name, a)
+			} else {
+				fmt.Fprintf(&sb, "%s: %s, asked again: %s; ", name, a, b)
 			}
 		}
 		show("warm", sim.Live())
